@@ -262,15 +262,18 @@ static void run_case(const std::string &key, const MatInfo &m, const Cfg &c, boo
     }
 
     // ---- rounding bound ----------------------------------------------------------------------------------------
-    // First-order forward error of a linear straight-line program: every one of at most W sequential accumulations an
-    // output entry depends on contributes u times an intermediate value, and the intermediates of the cycle (iterate,
-    // residual, coarse correction) are bounded by a small multiple of ||B|| ||f||:  |fl(B f) - B f| <= tau ||B||_F ||f||_2
-    // with tau = 32 W u, W = operation depth counted from the level list (work_depth above).  Stated once, not tuned per case;
-    // the evidence records the histogram of observed residual / bound (counters additivity_residual_over_bound_*, asymmetry_over_bound_*).
+    // First-order forward error of the cycle seen as a linear straight-line program: each of at most W sequential
+    // accumulations an output entry depends on contributes u times an intermediate value.  The intermediates are the
+    // iterate (<= ||B|| ||f||) and the residual f - A x (<= (1 + ||A|| ||B||) ||f||), and an error made in a residual is
+    // carried to the output by the remaining correction (norm <= ||B||).  Hence
+    //     |fl(B f) - B f| <= tau ||B||_F ||f||_2,   tau = 32 W u (1 + ||A||_2 ||B||_F),
+    // with W counted from the level list (work_depth) and ||A||_2, ||B||_F measured.  Stated once, not tuned per case;
+    // the evidence records the histogram of observed residual / bound (additivity_residual_over_bound_*, asymmetry_over_bound_*).
     const double u = std::ldexp(1.0, -53);
     const double W = work_depth(*amg, c);
-    const double tau = 32 * W * u;
     const double Bf = B.norm();
+    const double normA = m.normA > 0 ? m.normA : m.Ad.norm();
+    const double tau = 32 * W * u * (1 + normA * Bf);
 
     // ---- additivity ----------------------------------------------------------------------------------------------
     {
@@ -301,12 +304,13 @@ static void run_case(const std::string &key, const MatInfo &m, const Cfg &c, boo
     bool sym_smoother = c.ri < NSYM_RELAX;
     if (m.dd_mmatrix_spd && sym_smoother) {
         vf::count("spectral_cases");
-        const double eig_tol = 4 * tau * Bf * m.normA * n;     // perturbation of the eigenvalues of L^T B L caused by the rounding in B
+        // eigenvalues of L^T B L move by at most ||A||_2 ||dB||_2 <= ||A||_2 sqrt(n) tau ||B||_F
+        const double eig_tol = 2 * std::sqrt((double)n) * tau * Bf * m.normA;
         if (c.npre == c.npost) {
             double asym = (B - B.transpose()).cwiseAbs().maxCoeff();
             double bound = 2 * tau * Bf;
             g_stats.max_sym_ratio = std::max(g_stats.max_sym_ratio, asym / bound);
-            if (!(asym <= bound)) fail(std::string("spd.symmetric:") + rel, vf::KS() << "max |B - B^T| = " << asym << " (bound " << bound << ", ||B||_F = " << Bf << ")");
+            if (!(asym <= bound)) fail(std::string("spd.symmetric:") + rel + ":" + coars_names[c.ci], vf::KS() << "max |B - B^T| = " << asym << " (bound " << bound << ", ||B||_F = " << Bf << ")");
             Mat Bs = 0.5 * (B + B.transpose());
             Mat G = m.L.transpose() * Bs * m.L;           // similar to B A; symmetric
             G = 0.5 * (G + G.transpose().eval());
